@@ -184,4 +184,8 @@ GuardRefuses == pc \in {"pair", "best", "conf", "done"} => 10 * Cardinality({i \
 \* behaviour generation: one case per initial state
 EmitCase == pc = "strip" => PrintT(<<"CASE", n, pid, own, ptgt, rank>>)
 GenOnly == pc = "strip"
+\* ---- liveness (checked by Picked_live.cfg): under weak fairness of the next-state action every behaviour comes to rest
+\* in a state without successor -- the modelled procedure terminates for every input, schedule and fault inside the bounds
+FairSpec == Spec /\ WF_vars(Next)
+Halts == <>[](~ENABLED Next)
 =============================================================================
